@@ -43,6 +43,7 @@ type preReq struct {
 	Headers map[string]string `json:"headers,omitempty"`
 	Body    []byte            `json:"body,omitempty"`
 	WantID  bool              `json:"want_id,omitempty"` // response JSON has "id": substitute {ID} in the main path
+	SettleMS int              `json:"settle_ms,omitempty"`
 }
 
 // job is one concrete request.
@@ -80,14 +81,15 @@ type assetInfo struct {
 	aInit    string
 	aMedia   string
 	vTS      int // video timescale
+	aTS      int // audio timescale
 }
 
 var knownAssets = []assetInfo{
-	{"testpic_2s", "Manifest.mpd", 2000, "V300/init.mp4", "V300/%s.m4s", "A48/init.mp4", "A48/%s.m4s", 90000},
-	{"testpic_6s", "Manifest.mpd", 6000, "V300/init.mp4", "V300/%s.m4s", "A48/init.mp4", "A48/%s.m4s", 90000},
-	{"testpic_8s", "Manifest.mpd", 8000, "V300/init.mp4", "V300/%s.m4s", "A48/init.mp4", "A48/%s.m4s", 90000},
+	{"testpic_2s", "Manifest.mpd", 2000, "V300/init.mp4", "V300/%s.m4s", "A48/init.mp4", "A48/%s.m4s", 0, 0},
+	{"testpic_6s", "Manifest.mpd", 6000, "V300/init.mp4", "V300/%s.m4s", "A48/init.mp4", "A48/%s.m4s", 0, 0},
+	{"testpic_8s", "Manifest.mpd", 8000, "V300/init.mp4", "V300/%s.m4s", "A48/init.mp4", "A48/%s.m4s", 0, 0},
 	// HEVC + AC-3: an asset livesim2 cannot encrypt itself, flat segment names
-	{"bbb_hevc_ac3_8s", "manifest.mpd", 2000, "video_init.mp4", "video_%s.m4s", "audio_init.mp4", "audio_%s.m4s", 12288},
+	{"bbb_hevc_ac3_8s", "manifest.mpd", 2000, "video_init.mp4", "video_%s.m4s", "audio_init.mp4", "audio_%s.m4s", 0, 0},
 }
 
 type concretizer struct {
@@ -100,6 +102,8 @@ type concretizer struct {
 	media2  []byte
 	nextCh  int
 	cur     assetInfo // asset of the request being built (livesim2 / patch)
+	curAudio bool     // the tail of the request addresses the audio track
+	rcvSets map[string]*rcvSet
 	instMS  int64     // nowMS of the request being built when its query class is an instant class (t_*)
 	early   bool
 }
@@ -120,10 +124,29 @@ func newConcretizer(seed int64, repo string) (*concretizer, error) {
 	if c.media2, err = os.ReadFile(filepath.Join(c.rcvData, "896605656.cmfv")); err != nil {
 		return nil, err
 	}
-	for _, a := range knownAssets {
+	for i, a := range knownAssets {
 		if _, err := os.Stat(filepath.Join(c.vodRoot, a.name, a.mpd)); err != nil {
 			return nil, fmt.Errorf("known asset %s: %w", a.name, err)
 		}
+		// timescales: read from the init segments of the asset (generator knowledge, not livesim2's tables)
+		for k, f := range []string{a.vInit, a.aInit} {
+			data, err := os.ReadFile(filepath.Join(c.vodRoot, a.name, f))
+			if err != nil {
+				return nil, err
+			}
+			ts, err := mdhdTimescale(data)
+			if err != nil {
+				return nil, fmt.Errorf("%s/%s: %w", a.name, f, err)
+			}
+			if k == 0 {
+				knownAssets[i].vTS = ts
+			} else {
+				knownAssets[i].aTS = ts
+			}
+		}
+	}
+	if err := c.loadRcvSets(repo); err != nil {
+		return nil, err
 	}
 	return c, nil
 }
@@ -219,10 +242,28 @@ func (c *concretizer) typicalInt(key string) string {
 	return c.pick("2", "5", "17")
 }
 
+// tickEdge: boundary values derived from the asset of the request: the segment duration, exactly and off by half a
+// tick / one tick of the track's timescale / 1 ms (seconds with 7 decimals for float keys, milliseconds for int keys).
+func (c *concretizer) tickEdge(key string) string {
+	segMS := c.cur.segDurMS
+	if !floatKeys[key] {
+		return strconv.Itoa(segMS + []int{-1, 0, 1, -1}[c.rng.Intn(4)])
+	}
+	ts := float64(c.cur.vTS)
+	if c.curAudio {
+		ts = float64(c.cur.aTS)
+	}
+	d := []float64{-0.45 / ts, -0.2 / ts, -0.45 / ts, -1 / ts, -0.55 / ts, 0, 0.45 / ts, 1 / ts, -0.001, 0.001}[c.rng.Intn(10)]
+	return strconv.FormatFloat(float64(segMS)/1000+d, 'f', 7, 64)
+}
+
 var drmNames = []string{"EZDRM-1-key-cbcs-test", "EZDRM-2-keys-cbcs-test"}
 
 // value returns a concrete string for (key, class).
 func (c *concretizer) value(key, class string) string {
+	if class == "tickedge" {
+		return c.tickEdge(key)
+	}
 	switch {
 	case floatKeys[key]:
 		if key == "ato" && class == "float" && c.rng.Intn(2) == 0 {
@@ -779,6 +820,7 @@ func (c *concretizer) concretize(id int, a absReq, rep int) job {
 	}
 	j.Ctx = []part{}
 	c.cur = knownAssets[c.rng.Intn(len(knownAssets))]
+	c.curAudio = a.Tail == "anum" || a.Tail == "atime" || a.Tail == "anum_lt"
 	for _, p := range tailCtx(a.Ep, a.Tail) {
 		dup := false
 		for _, q := range a.Parts {
@@ -946,6 +988,8 @@ func (c *concretizer) concretize(id int, a absReq, rep int) job {
 		default:
 			panic("unknown api tail " + a.Tail)
 		}
+	case "rcvseq":
+		c.rcvSequence(&j, a)
 	case "rcv":
 		c.nextCh++
 		ch := fmt.Sprintf("ch%d", c.nextCh)
